@@ -31,15 +31,27 @@
   of two levels, of an associativity, or of the grammar-encoded nesting breaks one of these
   theorems at the next run.
 
-  ── JSON half (model: `Json.lean`; regenerated grammar terms: `Generated/JsonGrammars.lean`)
-  ── the target theorems are stated below and are OPEN (see the end of the file for exactly
-  what is proved).  The engine therefore reports the JSON half at level "other": it rests on
-  the failing-input search against `json.loads` and on *executing* the L0 specification on the
-  regenerated grammar terms (driver requests `J accepts` / `J prefixes`, which evaluate the
-  two target statements on generated documents).
+  ── JSON half (model: `Json.lean`; regenerated grammar terms: `Generated/JsonGrammars.lean`;
+  lemmas: `Lemmas/Ev.lean` big-step rules of L0, `Lemmas/Json.lean` tokens, `Lemmas/JsonDoc.lean`
+  and `Lemmas/JsonDocTests.lean` values and documents) ── against the specification L0 of
+  pest's semantics, about the regenerated rule tables of BOTH bundled grammars:
+
+    PROVED  stage 1  `json_number_accepts[_tests]`, `json_string_accepts[_tests]`
+                     every RFC 8259 number / string, any spelling, is one token with the right pair(s)
+    PROVED  stage 2  `json_value_accepts[_tests]`   every value, any nesting depth, any whitespace
+    PROVED  stage 3  `json_accepts`, `json_accepts_tests`, `json_accepts_both`
+                     every document with a container at top level is accepted with the tree `mirror`
+    OPEN    stage 4  `json_rejects_prefix`          (full statement at the end of the file)
+
+  All for all documents and inputs of any size; `∃ N, ∀ n ≥ N` = for all sufficient fuel.
+  Because one theorem is OPEN, and because the theorems are about the *specification* (the
+  step to the four execution modes is C01–C04's), the engine reports C17 at level "other" and
+  keeps running the failing-input search and the executable specification on every run.
 -/
 import PestModel.Lemmas.Calc
 import PestModel.Lemmas.Json
+import PestModel.Lemmas.JsonDoc
+import PestModel.Lemmas.JsonDocTests
 import PestModel.Props.C18
 import PestModel.Json
 import PestModel.Spec
@@ -290,7 +302,8 @@ end Examples
 
 /-! ## JSON
 
-  Stage 1 (lexical level) is proved for examples/json/json.pest; stages 2–4 are OPEN. -/
+  Stages 1–3 (tokens, values, documents) are proved for both bundled grammars; stage 4 (prefix
+  rejection) is OPEN. -/
 
 open Json L0
 
@@ -380,30 +393,134 @@ theorem json_string_accepts_tests (inp : Input) (s : S0) (cs : SStr) (post : Str
       (.ok { s with pos := s.pos + (strText cs).length } [mirrorStr .tests s.pos cs]) :=
   (ev_tString testsJson_string_rules s cs hr).conv (by simp)
 
-/-! ### stages 2–4: OPEN
+/-! ### stages 2 and 3 for examples/json/json.pest: values and documents -/
 
-  -- OPEN (stage 2, values): for every `v : Val`, from a non-atomic state, followed by whitespace, `,`, `]`,
-  --   `}` or the end:
-  --   theorem json_value_accepts (fl) (v : Val) … :
-  --       Conv (grammarOf fl) inp (.ident "value" none) s (.ok { s with pos := s.pos + v.text.length } [v.mirror fl s.pos])
-  --   (structural induction over `Val`/`Elems`/`Members`; needs `EvSkip` for the `WHITESPACE` rule in a
-  --    non-atomic context, the failure of the earlier alternatives of `value`, and the give-back of trivia
-  --    by `("," ~ value)*` before `]`)
-  --
-  -- OPEN (stage 3, documents):
-  --   theorem json_accepts (fl : Flavour) (d : Doc) (h : d.topLevelIsContainer) :
-  --       ∃ n, L0.parse (grammarOf fl) (render d).toArray n "json" 0
-  --         = .ok ⟨(render d).length, [], false⟩ (mirror fl d)
-  --
-  -- OPEN (stage 4, prefixes):
+/-- the whole regenerated rule table of examples/json/json.pest is the table
+    `Lemmas/JsonDoc.lean` reasons about: implicit trivia is `WHITESPACE = _{ " " | "\t" | "\r" | "\n" }`
+    only (no COMMENT, no fused SKIP), `json = _{ SOI ~ (object | array) ~ EOI }`, `value` silent, … -/
+theorem examplesJson_rules : ExDocRules Generated.examplesJson where
+  ws := ⟨⟨.grammar, by rfl⟩, by rfl, by rfl⟩
+  strs := examplesJson_string_rules
+  number := by rfl
+  object := by rfl
+  array := by rfl
+  pair := by rfl
+  value := by rfl
+  boolean := by rfl
+  null := by rfl
+  json := by rfl
+  eoi := by rfl
+
+/-- **Stage 2: every RFC 8259 value (examples/json/json.pest).**  From any non-atomic state, at
+    any position of any input that continues with the text of a value `v` — scalars in any
+    spelling, arrays and objects nested to any depth, whitespace at every legal place, empty
+    containers, duplicate names — followed by whitespace, `,`, `]`, `}` or the end, `value`
+    succeeds, consumes exactly the text of `v`, and yields exactly `v.mirror` (the pairs
+    `object[pair[string[inner], …]…]`, `array[…]`, `string[inner]`, `number`, `boolean`,
+    `null` with the spans of the source). -/
+theorem json_value_accepts (inp : Input) (v : Val) (s : S0) (post : Str) (hna : s.atomic = false)
+    (hr : inp.toList.drop s.pos = v.text ++ post) (hf : HeadIs ValFollow post) :
+    Conv Generated.examplesJson inp (.ident "value" none) s
+      (.ok { s with pos := s.pos + v.text.length } [v.mirror .examples s.pos]) :=
+  (val_ok examplesJson_rules v s post hna hr hf).conv (by simp)
+
+/-- **Stage 3: `json_accepts` for examples/json/json.pest.**  For *every* RFC 8259 document
+    whose top level is an array or object, written in any way the RFC allows, the
+    specification of pest run on the regenerated grammar accepts the whole text and returns
+    exactly the tree `mirror` (same nesting and member order as the document, number and
+    string tokens spanning exactly their source text), for all sufficient fuel. -/
+theorem json_accepts (d : Doc) (h : d.topLevelIsContainer) :
+    ∃ N, ∀ n, N ≤ n →
+      L0.parse Generated.examplesJson (render d).toArray n "json" 0
+        = .ok ⟨(render d).length, [], false⟩ (mirror .examples d) :=
+  parse_json_doc examplesJson_rules d h
+
+/-- a concrete instance: ` [ -1.5e3 , { "a\n" : [ ] } ] ` with whitespace at every legal place -/
+def exDoc : Doc :=
+  { w1 := [.space],
+    v := .arr (.cons [.space] (.num { neg := true, int := .nonzero 0 [], frac := some (5, []),
+                                      exp := some { upper := false, sign := .none, d := 3, ds := [] } }) [.tab]
+          (.one [.lf] (.obj (.one [.space] [.raw 97 (by decide), .esc .n] [.space] [.cr] (.arr0 [.space]) [.space]))
+            [.space])),
+    w2 := [.lf] }
+
+example : exDoc.topLevelIsContainer := rfl
+example : render exDoc = [32, 91, 32, 45, 49, 46, 53, 101, 51, 9, 44, 10, 123, 32, 34, 97, 92, 110, 34, 32, 58, 13,
+    91, 32, 93, 32, 125, 32, 93, 10] := by decide
+
+/-! ### stages 2 and 3 for tests/grammars/json.pest -/
+
+/-- the whole regenerated rule table of tests/grammars/json.pest: `json = { SOI ~ value ~ EOI }`,
+    `value = { string | number | object | array | bool | null }` (a normal rule), the non-empty
+    alternative of `object` / `array` first, the same trivia -/
+theorem testsJson_rules : TDocRules Generated.testsJson where
+  ws := ⟨⟨.grammar, by rfl⟩, by rfl, by rfl⟩
+  strs := testsJson_string_rules
+  nums := testsJson_number_rules
+  object := by rfl
+  array := by rfl
+  pair := by rfl
+  value := by rfl
+  bool := by rfl
+  null := by rfl
+  json := by rfl
+  eoi := by rfl
+
+/-- stage 2 for tests/grammars/json.pest: as `json_value_accepts`, every value wrapped in a
+    `value` pair -/
+theorem json_value_accepts_tests (inp : Input) (v : Val) (s : S0) (post : Str) (hna : s.atomic = false)
+    (hr : inp.toList.drop s.pos = v.text ++ post) (hf : HeadIs ValFollow post) :
+    Conv Generated.testsJson inp (.ident "value" none) s
+      (.ok { s with pos := s.pos + v.text.length } [v.mirror .tests s.pos]) :=
+  (tval_ok testsJson_rules v s post hna hr hf).conv (by simp)
+
+/-- **Stage 3: `json_accepts` for tests/grammars/json.pest.**  Every RFC 8259 document (this
+    grammar does not even need the top level to be a container) is accepted, with exactly the
+    tree `mirror .tests`: `json[value[…], EOI]`. -/
+theorem json_accepts_tests (d : Doc) :
+    ∃ N, ∀ n, N ≤ n →
+      L0.parse Generated.testsJson (render d).toArray n "json" 0
+        = .ok ⟨(render d).length, [], false⟩ (mirror .tests d) :=
+  parse_tjson_doc testsJson_rules d
+
+/-- the regenerated grammar term of a flavour -/
+def grammarOf : Flavour → Grammar
+  | .examples => Generated.examplesJson
+  | .tests => Generated.testsJson
+
+/-- **C17, JSON half, acceptance.**  Every RFC 8259 JSON document whose top level is an array or
+    object — every way of writing it — is accepted by both bundled grammars under the
+    specification of pest's semantics, and the parse tree is `mirror`: the nesting and member
+    order of the document, every number token spanning exactly the number as written, every
+    string token (its `inner` pair, resp. its span minus the quotes) exactly the raw source
+    slice. -/
+theorem json_accepts_both (fl : Flavour) (d : Doc) (h : d.topLevelIsContainer) :
+    ∃ N, ∀ n, N ≤ n →
+      L0.parse (grammarOf fl) (render d).toArray n "json" 0
+        = .ok ⟨(render d).length, [], false⟩ (mirror fl d) := by
+  cases fl with
+  | examples => exact json_accepts d h
+  | tests => exact json_accepts_tests d
+
+/-! ### OPEN
+
+  -- OPEN (stage 4, prefixes, both grammars):
   --   theorem json_rejects_prefix (fl : Flavour) (d : Doc) (h : d.topLevelIsContainer) (hw : d.noTrailingWs)
   --       (q : Str) (hq : q <+: render d) (hne : q ≠ render d) :
-  --       ∃ n, L0.parse (grammarOf fl) q.toArray n "json" 0 = .fail
+  --       ∃ N, ∀ n, N ≤ n → L0.parse (grammarOf fl) q.toArray n "json" 0 = .fail
+  --   Acceptance is proved by exhibiting the one successful path; rejection has to close *every* path at
+  --   every cut point of every construct (or go through a soundness theorem "what `json` accepts is balanced").
+  --   `Lemmas/Ev.lean` has the failure rules; the case analysis is not done.
   --
-  -- Until then the JSON half is checked, on every run, by *evaluating* these two statements with the
-  -- compiled model on generated documents (driver requests `J accepts` / `J prefixes`, which run
-  -- `L0.parse` on `Generated.examplesJson` / `Generated.testsJson` and compare with `Json.mirror`), and by
-  -- the failing-input search of harness/eng_examples.py against Python's `json` module.
+  -- What the theorems above do not cover, and what covers it on every run:
+  --   * prefix rejection: evaluated with the compiled model on generated documents (driver request
+  --     `J prefixes`: `L0.parse` on every proper prefix), and checked on the implementation in all modes;
+  --   * the step from the L0 specification to the four execution modes of the implementation: that is the
+  --     content of properties C01–C04 (interpreter ⊑ specification, generated code ≈ interpreter, optimizer
+  --     preserves meaning); here it is checked directly by the failing-input search of
+  --     harness/eng_examples.py (both grammars × four modes against `mirror` and against Python's `json`);
+  --   * "mirrors json.loads": `mirror` is a statement about the document as written; that the spans it
+  --     assigns decode to the values `json.loads` returns is checked by the harness on every generated document.
 -/
 
 end C17
